@@ -1,4 +1,5 @@
 import VarmqVerif.Model.Res
+import VarmqVerif.Model.Job
 import Driver.Parse
 /-!
   Correspondence replay (DESIGN.md §3.3 (a)): the raw event lines of an implementation execution
@@ -106,4 +107,133 @@ def feed (st : RState State) (lineNo : Nat) (l : RawLine) : RState State :=
   | r => r
 end ResMap
 
+end VarmqVerif.Driver
+
+namespace VarmqVerif.Driver
+-- ---------------------------------------------------------------- Job
+namespace JobMap
+open Job
+
+structure MapSt where
+  jobs : List (String × Nat) := []
+  batches : List (String × Nat) := []
+  chans : List (String × Nat) := []
+  lastChan : List (Nat × Nat) := []      -- goroutine ↦ channel made by NewResponse, not yet attached
+  curBatch : List (Nat × Nat) := []      -- goroutine ↦ batch being filled by AddAll
+
+def idx (tab : List (String × Nat)) (name : String) : Nat × List (String × Nat) :=
+  match tab.find? (·.1 == name) with
+  | some (_, i) => (i, tab)
+  | none => (tab.length, (name, tab.length) :: tab)
+
+def known (tab : List (String × Nat)) (name : String) : Bool := tab.any (·.1 == name)
+
+def aget (m : List (Nat × Nat)) (g : Nat) : Option Nat := (m.find? (·.1 == g)).map (·.2)
+def aset (m : List (Nat × Nat)) (g v : Nat) : List (Nat × Nat) := (g, v) :: m.filter (·.1 != g)
+def adel (m : List (Nat × Nat)) (g : Nat) : List (Nat × Nat) := m.filter (·.1 != g)
+
+/-- "resultJob#3.status" → ("resultJob#3", "status") -/
+def splitObj (obj : String) : String × String :=
+  match obj.splitOn "." with
+  | [a, b] => (a, b)
+  | _ => (obj, "")
+
+def isJobName (n : String) : Bool :=
+  ["job#", "errorJob#", "resultJob#", "groupJob#", "errorGroupJob#", "resultGroupJob#"].any (fun p => n.startsWith p)
+
+def events (m : MapSt) (s : State) (l : RawLine) : Except String (MapSt × List Ev) :=
+  let g := l.g
+  match l.tag, l.f with
+  | "E", [fn, obj, op, arg, res] =>
+    let (base, field) := splitObj obj
+    if fn == "NewResponse" && op == "make" then
+      let (c, chans) := idx m.chans obj
+      .ok ({ m with chans := chans, lastChan := aset m.lastChan g c }, [])
+    else if isJobName base && field == "wg" then
+      let (j, jobs) := idx m.jobs base
+      if op == "add" && arg == "1" then
+        let ch := if fn == "newErrorJob" || fn == "newResultJob" then aget m.lastChan g else none
+        .ok ({ m with jobs := jobs, lastChan := adel m.lastChan g }, [.newJob g j ch])
+      else if op == "add" && arg == "-1" then .ok ({ m with jobs := jobs }, [.wgDone g j])
+      else if op == "wait" then .ok ({ m with jobs := jobs }, [.wgWait g j])
+      else .error s!"unmodelled wait-group operation {op} {arg} on {obj} in {fn}"
+    else if isJobName base && field == "status" then
+      let isNew := !(known m.jobs base)
+      let (j, jobs) := idx m.jobs base
+      let m := { m with jobs := jobs }
+      if op == "store" then
+        let v := natOf arg
+        if fn == "parseToJob" then .ok (m, [.stParsed g j v])
+        else if v == 1 then
+          match isNew, aget m.curBatch g with
+          | true, some b => .ok (m, [.newItem g j b, .stQueued g j])
+          | _, _ => .ok (m, [.stQueued g j])
+        else if v == 3 then .ok (m, [.stFinished g j])
+        else .error s!"status {v} stored by {fn}: the model only knows Queued (Add), Finished (runner) and the CAS in claim()/tryClose()"
+      else if op == "load" then
+        if fn == "job.claim" then .ok (m, [.ldClaim g j (natOf res)])
+        else if fn == "job.tryClose" then .ok (m, [.ldClose g j (natOf res)])
+        else .ok (m, [.ldStatus g j (natOf res)])
+      else if op == "cas" then
+        match arg.splitOn "," with
+        | [o, n] =>
+          if fn == "job.claim" && natOf n == 2 then .ok (m, [.casClaim g j (natOf o) (res == "true")])
+          else if fn == "job.tryClose" && natOf n == 4 then .ok (m, [.casClose g j (natOf o) (res == "true")])
+          else .error s!"CAS {arg} on a job status in {fn}"
+        | _ => .error "malformed cas"
+      else .error s!"unmodelled operation {op} on a job status in {fn}"
+    else if base.startsWith "WgCounter#" then
+      let (b, batches) := idx m.batches base
+      let m := { m with batches := batches }
+      if field == "count" then
+        if fn == "NewWgCounter" && op == "add" then
+          .ok ({ m with curBatch := aset m.curBatch g b, lastChan := adel m.lastChan g }, [.newBatch g b (natOf arg) (aget m.lastChan g)])
+        else if fn == "WgCounter.Done" && op == "load" then .ok (m, [.ldCount g b (natOf res)])
+        else if fn == "WgCounter.Done" && op == "cas" then
+          match arg.splitOn "," with
+          | [o, n] => if natOf n + 1 == natOf o then .ok (m, [.casCount g b (natOf o) (res == "true")]) else .error "count CAS does not subtract one"
+          | _ => .error "malformed cas"
+        else if op == "load" then .ok (m, [.ldCountAny g b (natOf res)])
+        else .error s!"unmodelled operation {op} {arg} on a batch counter in {fn}"
+      else if field == "wg" then
+        if fn == "NewWgCounter" then .ok (m, [])
+        else if op == "add" && arg == "-1" then .ok (m, [.wgDoneB g b])
+        else if op == "wait" then .ok (m, [.wgWaitB g b])
+        else .error s!"unmodelled operation {op} {arg} on a batch wait group in {fn}"
+      else .ok (m, [])
+    else if obj.endsWith ":NewResponse.ch" then
+      let (c, chans) := idx m.chans obj
+      let m := { m with chans := chans }
+      if op == "close" then .ok (m, [.closeChan g c])
+      else if op == "send" then .ok (m, [.sendChan g c])
+      else .ok (m, [])
+    else .ok (m, [])
+  | "W", "enter" :: _ :: _ :: ref :: _ =>
+    if isJobName ((ref.splitOn "+").headD ref) then
+      let (j, jobs) := idx m.jobs ref
+      .ok ({ m with jobs := jobs }, [.enter g j])
+    else .error s!"worker function entered with an unknown job reference {ref}"
+  | "W", "exit" :: _ =>
+    match (s.loc g).running with
+    | some j => .ok (m, [.exit g j])
+    | none => .error "worker function exit without entry"
+  | "C", _ :: _ => .ok ({ m with lastChan := adel m.lastChan g }, [])
+  | "R", _ :: "addall" :: _ => .ok ({ m with curBatch := adel m.curBatch g }, [])
+  | _, _ => .ok (m, [])
+
+structure St where
+  m : MapSt := {}
+  s : State := Job.init
+
+def feed (st : RState St) (lineNo : Nat) (l : RawLine) : RState St :=
+  match st with
+  | .ok x =>
+    match events x.m x.s l with
+    | .error e => .rejected lineNo s!"{e} @ {l.tag} {l.g} {" ".intercalate l.f}"
+    | .ok (m', evs) =>
+      match feedAll Job.step x.s evs with
+      | .ok s' => if s'.crashed then .rejected lineNo s!"model reached the crashed state @ {l.tag} {l.g} {" ".intercalate l.f}" else .ok { m := m', s := s' }
+      | .error e => .rejected lineNo s!"{e} @ {l.tag} {l.g} {" ".intercalate l.f}"
+  | r => r
+end JobMap
 end VarmqVerif.Driver
